@@ -709,6 +709,9 @@ pub fn c08(tier: Tier) -> i32 {
             let mut kv: Vec<String> = hk[..kinds(&h[..f.min(h.len())]).len().min(hk.len())].to_vec();
             kv.push(fk.clone());
             kv.push(format!("during:{op_kind}"));
+            if !do_retry {
+                kv.push("flow:move_on".to_string());
+            }
             let replay = json!({"engine":"fault","history": show_history(h), "fail_at": k, "io_step": fault_desc, "faulted_op": f, "op_result": format!("{res:?}")});
             let report = |class: String, detail: String| {
                 rep.outcome(&class);
